@@ -28,6 +28,8 @@ def configs(tier, seed):
         if c["algo"] in ("POO", "GPO", "PCT", "VPCT") and c.get("rhomax", 0.9) < 0.84:
             continue
         out.append(dict(c, name="ledger-" + c["name"]))
+    for c in c01.modeb_configs(tier, [a for a in ALGOS]):
+        out.append(dict(c, name="ledger-" + c["name"]))
     out.append({"name": "twin-HCT", "algo": "HCT", "part": "B", "d": 1, "T": 3, "twin": True, "expect_fail": "twin"})
     return out
 
@@ -135,8 +137,8 @@ def run(ctx, cfg):
         if name in ("POO", "GPO"):
             base = algo_class(p["base"])
             Rec = make_recording(base, ctx, learners)
-            from harness.common import sym_box
-            dom = sym_box(ctx, cfg["d"])
+            from harness.runlevel import initial_domain
+            dom = initial_domain(ctx, cfg)
             algo = build(ctx, cfg, dom, base_cls=Rec)
         else:
             # PCT / VPCT hard-wire their base class: swap the module global for the run
@@ -147,7 +149,8 @@ def run(ctx, cfg):
             Rec = make_recording(base, ctx, learners)
             setattr(m, attr, Rec)
             try:
-                dom = sym_box(ctx, cfg["d"])
+                from harness.runlevel import initial_domain
+                dom = initial_domain(ctx, cfg)
                 algo = build(ctx, cfg, dom)
                 drive(ctx, cfg, [WrapperLedger(learners)], dom=dom, algo=algo, last_point=False)
             finally:
